@@ -75,6 +75,8 @@ Cb(S, s, st) == LET g == s[1] IN
 SockEvent(S, s, st) ==
   IF S.sst[s] = st \/ S.sst[s] = "SHUTDOWN" THEN S
   ELSE Cb([S EXCEPT !.sst[s] = st, !.upd[s] = IF st = "ESTABLISHED" THEN TRUE ELSE @], s, st)
+(* rtr_mgr_conf_in_sync: some group has every socket holding synchronised data *)
+InSync(S) == \E g \in S.present : \A s \in Socks(S, g) : S.upd[s]
 ExpireSock(S, s) == [S EXCEPT !.upd[s] = FALSE]
 
 (* configuration API *)
